@@ -383,6 +383,14 @@ class C07(Base):
         for c in ("DiskRevolve", "Revolve", "PeriodicDiskRevolve"):
             slots.append(({"cls": c, "N": N, "p": dict(costs, s=s)}, 1,
                           "every"))
+        for cfg, _, _ in slots:
+            # calling forms: costs positionally / everything by keyword /
+            # numpy integers; integral costs as Python ints
+            if rng.random() < 0.1:
+                cfg["p"]["call"] = rng.choice(("pos", "pos", "kw", "np",
+                                               "nppos"))
+            if rng.random() < 0.3:
+                cfg["p"]["costs_int"] = True
         return Plan(slots)
 
     def check(self, w):
